@@ -1,9 +1,14 @@
 package main
 
 import (
+	"bytes"
 	"context"
 	"encoding/json"
 	"fmt"
+	"go/ast"
+	"go/parser"
+	"go/printer"
+	"go/token"
 	"math/big"
 	"os"
 	"os/exec"
@@ -67,6 +72,7 @@ func parseModelValue(v string) (int64, bool) {
 }
 
 type replayOutcome struct {
+	Leaked     bool
 	Reproduced bool
 	End        string
 	Fails      []string
@@ -96,6 +102,8 @@ func replayBatch(cases []*replayFile, workDir string) []replayOutcome {
 				switch {
 				case strings.HasPrefix(rest, "END "):
 					o.End = strings.TrimPrefix(rest, "END ")
+				case strings.HasPrefix(rest, "LEAK "):
+					o.Leaked = true
 				case strings.HasPrefix(rest, "FAIL "):
 					o.Fails = append(o.Fails, strings.TrimPrefix(rest, "FAIL "))
 				case strings.HasPrefix(rest, "COVER "):
@@ -120,6 +128,11 @@ func replayBatch(cases []*replayFile, workDir string) []replayOutcome {
 				o.Reproduced = strings.HasPrefix(o.End, "PANIC") || (o.End == "" && (strings.Contains(text, "panic:") || strings.Contains(text, "fatal error:")))
 			case "deadlock", "unwind":
 				o.Reproduced = o.End == "HANG" || strings.Contains(text, "all goroutines are asleep")
+			case "leak":
+				o.Reproduced = o.Leaked || o.End == "HANG"
+				if o.Leaked {
+					o.End += "+LEAK"
+				}
 			default:
 				o.Reproduced = len(o.Fails) > 0 || strings.HasPrefix(o.End, "PANIC")
 			}
@@ -137,23 +150,33 @@ func runReplayPkg(pkg string, cases []*replayFile, idxs []int, workDir string) s
 		pkgName = filepath.Base(pkg)
 	}
 	var sb strings.Builder
-	fmt.Fprintf(&sb, "package %s\n\nimport (\n\t\"fmt\"\n\t\"os\"\n\t\"testing\"\n\t\"time\"\n)\n\n", pkgName)
-	sb.WriteString(`func vReplayCase(i int, model map[string]int64, f func(), repeat int) {
+	fmt.Fprintf(&sb, "package %s\n\nimport (\n\t\"fmt\"\n\t\"os\"\n\t\"runtime\"\n\t\"sync/atomic\"\n\t\"testing\"\n\t\"time\"\n)\n\n", pkgName)
+	sb.WriteString(`func vReplayCase(i int, model map[string]int64, f func(), repeat int, class, id string) {
+	start := time.Now()
 	for r := 0; r < repeat; r++ {
-		if vReplayOnce(i, model, f, r == repeat-1) {
+		// odd attempts perturb the schedule (see vJit); the instrumented statements are otherwise inert
+		if r%2 == 1 {
+			atomic.StoreUint64(&vJitState, uint64(r)*7919)
+			atomic.StoreUint32(&vJitOn, 1)
+		}
+		last := r == repeat-1 || time.Since(start) > 45*time.Second
+		stop := vReplayOnce(i, model, f, last, class, id)
+		atomic.StoreUint32(&vJitOn, 0)
+		if stop || last {
 			return
 		}
 	}
 }
 
 // vReplayOnce runs the harness once; it reports (and returns true) when something went wrong or on the last try.
-func vReplayOnce(i int, model map[string]int64, f func(), last bool) bool {
+func vReplayOnce(i int, model map[string]int64, f func(), last bool, class, id string) bool {
 	vModel = model
 	vFailures = nil
 	vCovered = map[string]bool{}
 	vGhost = map[string][]int64{}
 	vGhostF = map[string][]float64{}
 	done := make(chan string, 1)
+	base := runtime.NumGoroutine()
 	go func() {
 		defer func() {
 			if r := recover(); r != nil {
@@ -175,11 +198,41 @@ func vReplayOnce(i int, model map[string]int64, f func(), last bool) bool {
 	case <-time.After(5 * time.Second):
 		end = "HANG"
 	}
-	bad := end != "RETURNED" || len(vFailures) > 0
+	leaked := 0
+	if end == "RETURNED" {
+		// goroutines started during the run must be gone shortly after it returned
+		for w := 0; w < 60 && runtime.NumGoroutine() > base; w++ {
+			time.Sleep(5 * time.Millisecond)
+		}
+		if n := runtime.NumGoroutine(); n > base {
+			leaked = n - base
+		}
+	}
+	// keep trying until the outcome the solver predicted shows up (other failures do not end the search)
+	bad := false
+	switch class {
+	case "assert":
+		for _, f := range vFailures {
+			if f == id {
+				bad = true
+			}
+		}
+	case "panic":
+		bad = len(end) >= 5 && end[:5] == "PANIC"
+	case "deadlock", "unwind":
+		bad = end == "HANG"
+	case "leak":
+		bad = leaked > 0 || end == "HANG"
+	default:
+		bad = end != "RETURNED" || len(vFailures) > 0 || leaked > 0
+	}
 	if !bad && !last {
 		return false
 	}
 	fmt.Fprintf(os.Stderr, "VREPLAY-CASE %d END %s\n", i, end)
+	if leaked > 0 {
+		fmt.Fprintf(os.Stderr, "VREPLAY-CASE %d LEAK %d\n", i, leaked)
+	}
 	for _, f := range vFailures {
 		fmt.Fprintf(os.Stderr, "VREPLAY-CASE %d FAIL %s\n", i, f)
 	}
@@ -211,7 +264,7 @@ func TestVReplay(t *testing.T) {
 		if rep < 1 || rf.Obligation.Class == "cover" {
 			rep = 1
 		}
-		fmt.Fprintf(&sb, "}, %s, %d)\n", rf.Func, rep)
+		fmt.Fprintf(&sb, "}, %s, %d, %q, %q)\n", rf.Func, rep, rf.Obligation.Class, rf.Obligation.ID)
 	}
 	sb.WriteString("}\n")
 	testFile := filepath.Join(workDir, "zz_verif_replay_test.go")
@@ -227,6 +280,14 @@ func TestVReplay(t *testing.T) {
 		k++
 		os.WriteFile(real, content, 0o644)
 		repl[virt] = real
+	}
+	for _, f := range []string{"progress.go", "bar.go", "heap_manager.go"} {
+		src := filepath.Join(repoDir, f)
+		if inst, err := instrumentJitter(src); err == nil {
+			real := filepath.Join(workDir, "jit_"+f)
+			os.WriteFile(real, inst, 0o644)
+			repl[src] = real
+		}
 	}
 	repl[filepath.Join(pkgDir, "zz_verif_replay_test.go")] = testFile
 	ovb, _ := json.Marshal(map[string]interface{}{"Replace": repl})
@@ -271,4 +332,50 @@ func replayMain(args []string) int {
 	}
 	fmt.Printf("NOT-REPRODUCED %s [%s] %s\n", rf.Harness, rf.Obligation.Class, rf.Obligation.ID)
 	return 0
+}
+
+// instrumentJitter returns the source of a repository file with a call to vJit() inserted before every
+// statement of every function body (timing perturbation only; used for native replays, never for /repo).
+func instrumentJitter(path string) ([]byte, error) {
+	fset := token.NewFileSet()
+	f, err := parser.ParseFile(fset, path, nil, parser.ParseComments)
+	if err != nil {
+		return nil, err
+	}
+	f.Comments = nil // positions of comments would be wrong after the rewrite; build tags are not used in these files
+	call := func() ast.Stmt {
+		return &ast.ExprStmt{X: &ast.CallExpr{Fun: ast.NewIdent("vJit")}}
+	}
+	weave := func(list []ast.Stmt) []ast.Stmt {
+		var out []ast.Stmt
+		for _, st := range list {
+			out = append(out, call(), st)
+		}
+		return out
+	}
+	skip := map[*ast.BlockStmt]bool{}
+	ast.Inspect(f, func(n ast.Node) bool {
+		switch x := n.(type) {
+		case *ast.SwitchStmt:
+			skip[x.Body] = true
+		case *ast.TypeSwitchStmt:
+			skip[x.Body] = true
+		case *ast.SelectStmt:
+			skip[x.Body] = true
+		case *ast.BlockStmt:
+			if !skip[x] {
+				x.List = weave(x.List)
+			}
+		case *ast.CaseClause:
+			x.Body = weave(x.Body)
+		case *ast.CommClause:
+			x.Body = weave(x.Body)
+		}
+		return true
+	})
+	var buf bytes.Buffer
+	if err := printer.Fprint(&buf, fset, f); err != nil {
+		return nil, err
+	}
+	return buf.Bytes(), nil
 }
